@@ -2,7 +2,10 @@
 
 package vsched
 
-import "runtime"
+import (
+	"runtime"
+	"time"
+)
 
 // Spin baton for race builds: mailboxes are plain variables accessed only inside
 // //go:norace functions and handed over by spinning with runtime.Gosched().
@@ -60,7 +63,16 @@ func batonWait(tid int) int64 {
 
 //go:norace
 func batonRecv() msg {
+	var spins int
+	var t0 time.Time
 	for {
+		if spins++; spins&0x3fff == 0 {
+			if t0.IsZero() {
+				t0 = time.Now()
+			} else if time.Since(t0) > StuckTimeout {
+				return msg{tid: -1, op: OpStuck}
+			}
+		}
 		n := int(nthreadsPlain())
 		for i := 0; i < n; i++ {
 			b := &boxesRB[i]
